@@ -19,6 +19,11 @@ def run(ctx):
     cg = mirlib.CallGraph(prog)
     pr.merge_semantics(rep, 'R18.b', prog, cg)
     rep.floor('R18.b', 38)
+    # no decoder guard is stricter than the operation needs (a value / unknown field ending exactly at the end of the input is complete)
+    import audit
+    import scopes
+    seen_ = cg.reachable(scopes.prost_decoder_roots(prog))
+    audit.tight_guards(rep, 'R18.t', sorted([b for b, _ in seen_.values() if b.crate == 'pilota'], key=lambda b: b.id))
     import gen_proto
     gen_proto.check(rep, ('G18.c',))
     return rep
